@@ -157,6 +157,7 @@ def targets(r, rnd, k):
 
 
 def reader_cases(ctx, d):
+    # 'x' is the exact rational value of the float the implementation parses from the text 'xt'
     rnd = ctx.rng
     cases = []
     for r in d['params']:
@@ -169,13 +170,13 @@ def reader_cases(ctx, d):
                 if r['currency'] and x is not None and u != r['pref']:
                     xs += [sig7(x / 1000), sig7(x / 10 ** 6)]   # small amounts: stay in range whatever the scaling
                 for xt in xs:
-                    cases.append({'row': r, 'u': u, 'xt': xt, 'x': F(xt), 'catalogue': u in units, 'text': f'{xt} {u}'})
+                    cases.append({'row': r, 'u': u, 'xt': xt, 'x': F(float(xt)), 'catalogue': u in units, 'text': f'{xt} {u}'})
         # no unit at all, and the default value written with the default unit (the "== default / == current" early returns)
         t = targets(r, rnd, 1)[0]
-        cases.append({'row': r, 'u': None, 'xt': sig7(t), 'x': F(sig7(t)), 'catalogue': False, 'text': sig7(t)})
+        cases.append({'row': r, 'u': None, 'xt': sig7(t), 'x': F(float(sig7(t))), 'catalogue': False, 'text': sig7(t)})
         dv = repr(float(r['param'].DefaultValue))
         if r['pref'] and 'e' not in dv and 'inf' not in dv and 'nan' not in dv:
-            cases.append({'row': r, 'u': r['pref'], 'xt': dv, 'x': F(dv), 'catalogue': False, 'text': f'{dv} {r["pref"]}'})
+            cases.append({'row': r, 'u': r['pref'], 'xt': dv, 'x': F(float(dv)), 'catalogue': False, 'text': f'{dv} {r["pref"]}'})
     return cases
 
 
@@ -830,7 +831,7 @@ def corpus_cases(d):
             if r is None:
                 continue
             xt, _, u = e['text'].partition(' ')
-            out.append({'row': r, 'u': u or None, 'xt': xt, 'x': F(xt), 'catalogue': u in r['units'] and u != '', 'text': e['text'], 'corpus': f.name})
+            out.append({'row': r, 'u': u or None, 'xt': xt, 'x': F(float(xt)), 'catalogue': u in r['units'] and u != '', 'text': e['text'], 'corpus': f.name})
     return out
 
 
@@ -901,7 +902,7 @@ def replay(ctx, data):
         if not rows:
             print('parameter no longer exists'); return 1
         xt, _, u = inp['text'].partition(' ')
-        c = {'row': rows[0], 'u': u or None, 'xt': xt, 'x': F(xt), 'catalogue': True, 'judged': True, 'text': inp['text']}
+        c = {'row': rows[0], 'u': u or None, 'xt': xt, 'x': F(float(xt)), 'catalogue': True, 'judged': True, 'text': inp['text']}
         run_reader([c])
         print('implementation: after ReadParameter ->', show_obs(c['obs']), '| after Outputs._convert_units ->', show_obs(c['echo']))
         print('expected:', expected_of(d, c))
